@@ -747,18 +747,24 @@ def pool_population_interrupt_test(ctx):
     from nessai.proposal.rejection import RejectionProposal
     logging.disable(logging.CRITICAL)
     nlive = 50
-    kw = dict(nlive=nlive, plot=False, seed=5, maximum_uninformed=60, checkpoint_on_iteration=True, checkpoint_interval=10 ** 9,
+    kw0 = dict(nlive=nlive, plot=False, seed=5, maximum_uninformed=60, checkpoint_on_iteration=True, checkpoint_interval=10 ** 9,
               signal_handling=False, flow_config=dict(n_blocks=2, n_neurons=4), training_config=dict(max_epochs=5),
               poolsize=100, log_on_iteration=False)
     try:
-        for phase, cls in (("uninformed", RejectionProposal), ("flow", FlowProposal)):
+        from nessai.proposal.analytic import AnalyticProposal
+        for phase, cls in (("uninformed", RejectionProposal), ("flow", FlowProposal), ("analytic", AnalyticProposal)):
+            # `analytic_priors=True`: the pool is model.new_point(N), all of it evaluated (seeded change C09-iA: AnalyticProposal
+            # announced `populated = True` before evaluating the pool's likelihoods)
+            kw = dict(kw0, analytic_priors=True, uninformed_proposal_kwargs=dict(poolsize=40), maximum_uninformed=10 ** 9,
+                      uninformed_acceptance_threshold=0.0) if phase == "analytic" else dict(kw0)
             d = tempfile.mkdtemp(prefix="c13p_")
             state = {"in": False, "armed": True, "fired": False, "fs": None}
             orig_pop = cls.__dict__["populate"]
 
             state["calls"] = 0
             # the first prior-rejection pool is drawn at iteration 0, where a resumed run starts over anyway: take the second
-            want_call = 2 if phase == "uninformed" else 1
+            # (analytic: pools of 40 for 50 live points — the first two calls fill the initial live set)
+            want_call = {"flow": 1, "uninformed": 2, "analytic": 4}[phase]
 
             def populate(self_, *a, _o=orig_pop, _cls=cls, **k):
                 mine = type(self_) is _cls
